@@ -33,7 +33,7 @@ ASSUMPTIONS = [
 _TID = re.compile(r"^t\d+$")
 INIT = "___xstate_statemachine_init___"
 BASE = dict(after=False, invoke=True, raising_guards=False, nested_builtins=True, two_markers=True,
-            null_transitions=False, p_handler=35, unhandled_service_errors=False)
+            null_transitions=False, p_handler=35, unhandled_service_errors=False, prefix_keys=True, hist_at_root=True)
 
 
 def _profiles():
